@@ -199,7 +199,7 @@ func (g *scenGen) adversarialBlock(a AuthCase) Block {
 }
 
 func runC04(c *Ctx) {
-	c.Rule = "random authorization scenarios over a small vocabulary (3-6 predicates of fixed arity, 2-6 constants, 0-3 later blocks, 0-2 checks per scope with 1-3 queries, 0-4 ordered policies of both kinds, expression-free / error-free / erroring expressions; one Authorize, or a Query before the first Authorize, or content added between two Queries / Authorizes on the same authorizer); the model's verdict is the expectation. Non-trivial = the verdict is one of ok/denied/nomatch/checks[...] (not a run error) and the case has at least one check or policy; distinct = distinct canonical case encodings."
+	c.Rule = "random authorization scenarios over a small vocabulary (3-6 predicates of fixed arity, 2-6 constants, 0-3 later blocks, 0-2 checks per scope with 1-3 queries, 0-4 ordered policies of both kinds, expression-free / error-free / erroring expressions; one Authorize, or a Query before the first Authorize, or content added between two Queries / Authorizes on the same authorizer, or the request's facts typed in and the configuration loaded afterwards from a snapshot); the model's verdict is the expectation. Non-trivial = the verdict is one of ok/denied/nomatch/checks[...] (not a run error) and the case has at least one check or policy; distinct = distinct canonical case encodings."
 	r := NewRng(c.Seed)
 	n := 5000
 	if c.Thorough {
@@ -234,6 +234,29 @@ func runC04(c *Ctx) {
 			q := g.rule()
 			a = withOps(a, AuthOp{K: "authorize"}, AuthOp{K: "addfact", Fact: g.fact()}, AuthOp{K: "addrule", Rule: g.rule()}, AuthOp{K: "query", Rule: q}, AuthOp{K: "authorize"})
 			c.Count("shape:authorize-add-query")
+		case 3:
+			// the request's facts are typed in, the configuration (rules, checks, ordered
+			// policies, its own facts) is then loaded from a snapshot made elsewhere: the
+			// content is the same as when everything is typed in, and so must the verdict be
+			var typed, cfg []AuthOp
+			for k, o := range a.Ops {
+				if o.K == "addfact" && k%2 == 0 {
+					typed = append(typed, o)
+				} else {
+					cfg = append(cfg, o)
+				}
+			}
+			ref := withOps(a, AuthOp{K: "authorize"})
+			a.Ops = append(append([]AuthOp{}, typed...), AuthOp{K: "load", Sub: cfg}, AuthOp{K: "authorize"})
+			c.Count("shape:typed-then-loaded")
+			if len(typed) > 0 {
+				resRef, _ := emitAuth(c, "auth-ref", ref)
+				resL, sxL := emitAuth(c, "auth-loaded", a)
+				if strings.HasPrefix(resL, "saved ") && resRef != "environment-timeout" && strings.TrimPrefix(resL, "saved ") != resRef {
+					c.Violate("C04/content-path-dependent", "the same facts, rules, checks and ordered policies give different verdicts depending on whether the configuration is typed in or loaded after the request's facts: typed -> "+trunc(resRef, 60)+", loaded -> "+trunc(resL, 60),
+						map[string]interface{}{"verb": "AUTHSEQ", "case": sxL, "go": resL, "reference_go": resRef})
+				}
+			}
 		default:
 			a = withOps(a, AuthOp{K: "authorize"})
 			if r.Chance(1, 2) {
@@ -348,9 +371,9 @@ func configLoaded(a AuthCase) AuthCase {
 
 // liveLoadPairs: the configuration reaches the authorizer through LoadPolicies AFTER a first
 // Authorize on the same authorizer (no Reset), then Authorize again — for T and for T+B.
-// What a load into a used authorizer means is not modelled (the library re-bases its symbol
-// table there), so this is witness search only: whatever it means, by the property's letter
-// the final answer for T+B may be an acceptance only if it is one for T.
+// Compared with the model (a load adds the snapshot's facts and rules and replaces checks and
+// policies, whatever the authorizer held) and searched for the property's own witness: the
+// final answer for T+B may be an acceptance only if it is one for T.
 func liveLoadPairs(c *Ctx) {
 	r := NewRng(c.Seed ^ 0x11fe)
 	n := 250
@@ -396,9 +419,8 @@ func liveLoadPairs(c *Ctx) {
 		a.Ops = []AuthOp{{K: "authorize"}, {K: "load", Sub: content}, {K: "authorize"}}
 		ab := a
 		ab.Tokens = [][]Block{append(append([]Block{}, a.Tokens[0]...), b)}
-		resT, resTB := execCase("AUTHSEQ", a.Sx()), execCase("AUTHSEQ", ab.Sx())
-		c.Eval()
-		c.Eval()
+		resT, _ := emitAuth(c, "liveload-T", a)
+		resTB, _ := emitAuth(c, "liveload-TB", ab)
 		last := func(s string) string {
 			f := strings.Fields(s)
 			if len(f) == 0 {
@@ -1306,17 +1328,23 @@ func snapshotMissingField(data []byte, r *Rng) (out []byte, label string) {
 	return mustMarshal(&m), label
 }
 
-// liveLoad: LoadPolicies on an authorizer that has already evaluated something. The content
-// uses default symbols and integers only, so that re-basing the symbol table (which
-// LoadPolicies does) cannot change what earlier content means; what is loaded must take part
+// liveLoad: LoadPolicies on an authorizer that has already evaluated something (content with
+// default and fresh names, integers and strings); what is loaded must take part
 // in every later evaluation: Query, add via LoadPolicies, Query again, Authorize.
 func liveLoad(c *Ctx, r *Rng) {
 	n := 150
 	if c.Thorough {
 		n = 2500
 	}
-	names := []string{"right", "resource", "operation", "role", "owner", "user"}
-	fact := func() Pred { return Pred{Name: Pick(r, names), Terms: []Term{I(int64(r.Intn(3)))}} }
+	names := []string{"right", "resource", "operation", "role", "owner", "user", "fresh_name", "group:1"}
+	fact := func() Pred {
+		// strings of the authorizer's own, too: since fix 4a66546 a load keeps the table the
+		// authorizer has built so far
+		if r.Chance(1, 2) {
+			return Pred{Name: Pick(r, names), Terms: []Term{S(Pick(r, []string{"alice", "bob", "file1", "read", "é"}))}}
+		}
+		return Pred{Name: Pick(r, names), Terms: []Term{I(int64(r.Intn(3)))}}
+	}
 	rule := func() Rule {
 		h, b := Pick(r, names), Pick(r, names)
 		rl := Rule{Head: Pred{Name: h, Terms: []Term{V("x")}}, Body: []Pred{{Name: b, Terms: []Term{V("x")}}}}
